@@ -22,7 +22,7 @@
 #endif
 
 // Spin the event loop until pred() holds. Returns false on timeout (hang detector).
-inline bool qxvSpin(const std::function<bool()> &pred, int timeoutMs = 2000)
+inline bool qxvSpin(const std::function<bool()> &pred, int timeoutMs = 4000)
 {
     QElapsedTimer t;
     t.start();
